@@ -583,6 +583,15 @@ func forgeResponse(rng *rand.Rand, n int, like *hg.Block) (*hg.Block, *hg.Frame)
 // hostile. The victim's application must not be restored from a response that
 // is then refused.
 func nodeLevelFF(r *Result, rng *rand.Rand, cl *cluster, blk0 *hg.Block, frm0 *hg.Frame, src *member) {
+	for kind := 0; kind < 3; kind++ {
+		nodeLevelFFKind(r, rng, cl, blk0, frm0, src, kind)
+	}
+}
+
+// kind 0: an honest response with one tampered field; kind 1: a forged, internally consistent
+// response (self-made validator set, correctly hashed and signed by that set): it passes every
+// check but the trusted-signer one; kind 2: the same with a garbage entry under a known key
+func nodeLevelFFKind(r *Result, rng *rand.Rand, cl *cluster, blk0 *hg.Block, frm0 *hg.Frame, src *member, kind int) {
 	nodes := newRealNodes(rng, 2, 1000)
 	victim, server := nodes[0], nodes[1]
 	// connect transports both ways and serve requests of the hostile endpoint by hand
@@ -592,7 +601,16 @@ func nodeLevelFF(r *Result, rng *rand.Rand, cl *cluster, blk0 *hg.Block, frm0 *h
 	var f hg.Frame
 	jsonCopy(blk0, &b)
 	jsonCopy(frm0, &f)
-	b.Body.Transactions = append(b.Body.Transactions, []byte("forged")) // tampered: must be refused
+	if kind == 0 {
+		b.Body.Transactions = append(b.Body.Transactions, []byte("forged")) // tampered: must be refused
+	} else {
+		fb, ff := forgeResponse(rng, 1+rng.Intn(4), blk0)
+		b, f = *fb, *ff
+		if kind == 2 {
+			b.Signatures[server.key.hex] = "1f|2e"
+		}
+	}
+	r.Inc(fmt.Sprintf("node_ff_kind_%d", kind), 1)
 	stop := make(chan struct{})
 	go func() {
 		for {
